@@ -217,7 +217,7 @@ Proof.
       unfold fresh. cbn [filter snd negb map skipn fst]. apply IH; [assumption | lia].
 Qed.
 
-Lemma fresh_all_true pf : fresh (map (fun x => (fst x, true)) pf) = [].
+Lemma fresh_all_true (pf : list (N * bool)) : fresh (map (fun x => (fst x, true)) pf) = [].
 Proof. induction pf as [|x r IH]; [reflexivity|]. unfold fresh in *. cbn. exact IH. Qed.
 
 Lemma fresh_app a b : fresh (a ++ b) = fresh a ++ fresh b.
@@ -231,6 +231,9 @@ Proof. unfold unflagged. rewrite map_map. cbn. apply map_id. Qed.
 
 Lemma map_snd_unflagged p : map snd (unflagged p) = repeat false (length p).
 Proof. induction p as [|t r IH]; [reflexivity|]. cbn. f_equal. exact IH. Qed.
+
+Lemma unflagged_length p : length (unflagged p) = length p.
+Proof. unfold unflagged. apply map_length. Qed.
 
 Lemma repeat_snoc {A} (x : A) n : repeat x n ++ [x] = repeat x (S n).
 Proof. induction n as [|n IH]; [reflexivity|]. cbn. f_equal. exact IH. Qed.
@@ -287,23 +290,22 @@ Proof.
   intros Hinv s' ob H. cbv zeta.
   destruct o; cbn [step] in H.
   - inversion H; subst; clear H. unfold hist_step, inv. cbn.
-    rewrite map_fst_unflagged, map_snd_unflagged, Nat.sub_0_r. repeat split. lia.
+    rewrite map_fst_unflagged, map_snd_unflagged, unflagged_length, Nat.sub_0_r. repeat split. lia.
   - inversion H; subst; clear H. destruct Hinv as (H1 & H2 & H3). unfold hist_step, inv. cbn.
-    rewrite !map_app, map_fst_unflagged, map_snd_unflagged, H1, H2, app_length.
-    unfold unflagged at 1. rewrite map_length.
+    rewrite !map_app, map_fst_unflagged, map_snd_unflagged, H1, H2, app_length, unflagged_length.
     replace (length pf + length p - s_nrec s)%nat with ((length pf - s_nrec s) + length p)%nat by lia.
     rewrite repeat_app, app_assoc. repeat split. lia.
   - inversion H; subst; clear H. unfold hist_step, inv. cbn. repeat split. lia.
   - pose proof (gen_impl_inv g m false s pf Hinv) as G. cbv zeta in G.
     destruct (gen_impl true g m false s) as [s1 c] eqn:E. cbn [fst] in G.
     inversion H; subst; clear H. unfold hist_step. cbn [fst snd o_res snap o_filter].
-    destruct G as (G1 & G2 & _). repeat split; assumption.
+    destruct G as (G1 & G2 & _). split; [exact G1|]. split; [exact G2|exact I].
   - pose proof (gen_impl_inv g m true s pf Hinv) as G. cbv zeta in G.
     destruct (gen_impl true g m true s) as [s1 c] eqn:E. cbn [fst] in G.
     destruct G as (G1 & G2 & G3 & G4).
     destruct (s_in s) as [|x xs] eqn:Es.
     + inversion H; subst; clear H. unfold hist_step. cbn [fst snd o_res snap o_filter].
-      repeat split; assumption.
+      split; [exact G1|]. split; [exact G2|exact I].
     + inversion H; subst; clear H. unfold hist_step. cbn [fst snd o_res snap o_filter].
       split; [apply push_tok_inv; assumption|]. split; [|exact G2].
       cbn [push_tok s_prev]. rewrite G2. reflexivity.
@@ -312,9 +314,9 @@ Proof.
     destruct G as (G1 & G2 & G3 & G4).
     destruct (s_in s) as [|x xs] eqn:Es.
     + inversion H; subst; clear H. unfold hist_step. cbn [fst snd o_res snap o_filter].
-      repeat split; assumption.
+      split; [exact G1|]. split; [exact G2|exact I].
     + inversion H; subst; clear H. unfold hist_step. cbn [fst snd o_res snap o_filter].
-      repeat split; assumption.
+      split; [exact G1|]. split; [exact G2|exact G2].
 Qed.
 
 Lemma seen_cons o ob r :
